@@ -41,6 +41,15 @@ def bindO {β γ : Type} (x : Option (Except Panic β)) (f : β → Option (Exce
 @[simp] theorem bindO_error {β γ : Type} (p : Panic) (f : β → Option (Except Panic γ)) : bindO (some (.error p)) f = some (.error p) := rfl
 @[simp] theorem bindO_none {β γ : Type} (f : β → Option (Except Panic γ)) : bindO none f = none := rfl
 
+/-- a result that is a non-negative `int` (an index computed by a model function over `Nat`) -/
+def natResult (x : Except Panic Nat) : Except Panic Int :=
+  match x with
+  | .ok p => .ok (p : Int)
+  | .error e => .error e
+
+@[simp] theorem natResult_ok (p : Nat) : natResult (.ok p) = .ok (p : Int) := rfl
+@[simp] theorem natResult_error (e : Panic) : natResult (.error e) = .error e := rfl
+
 /-- a Go slice value: a window on array `arr` -/
 structure Slice where
   arr : Nat
@@ -90,6 +99,9 @@ def Mem.copy (m : Mem α) (dst src : Slice) : Mem α :=
     error ("makeslice: len out of range") -/
 def makeArray [Inhabited α] (n : Int) : Except Panic (List α) :=
   if 0 ≤ n ∧ n < 9223372036854775808 then .ok (List.replicate n.toNat default) else .error .rt
+
+/-- a fresh array holding the given values (what `AsArray()` of an operand hands out) -/
+def Mem.alloc (m : Mem α) (l : List α) : Mem α × Slice := (m ++ [l], ⟨m.length, 0, l.length, l.length⟩)
 
 /-- a slice lies inside its array -/
 def Mem.Wf (m : Mem α) (s : Slice) : Prop :=
